@@ -150,7 +150,7 @@ PROFILES = {
                                      weights=W(latehold=6, hold=3, map=5, ssink=4, csink=2, merge=3, snapshot=2))),
     ],
     "C05": [("switch-dynamic", dict(n_defs=(4, 10), sends_per_txn=(1, 4), samples=0.3, wfchecks=0.2, intxn_defs=0.3, unused_base=0.6,
-                                    weights=W(switchdyn=6, switchlate=4, switchlatec=5, switchnest=4, switchs=2, csink=5, ssink=4, hold=2, map=2, merge=2, snapshot=1))),
+                                    weights=W(switchdyn=6, switchlate=4, switchlatec=5, switchnest=4, lateswitch=3, lateswitchc=3, switchs=2, csink=5, ssink=4, hold=2, map=2, merge=2, snapshot=1))),
             ("switch-defer", dict(n_defs=(5, 11), sends_per_txn=(1, 4), max_defer=2, samples=0.3, wfchecks=0.3,
                                   weights=W(switchs=6, switchc=2, defer=5, split=1, csink=4, ssink=3, map=2, hold=2, merge=2))),
             ("switch", dict(n_defs=(5, 12), samples=0.5, intxn_defs=0.2, sends_per_txn=(1, 4),
